@@ -167,6 +167,10 @@ def spec(tier, seed):
     for e in KNOWN_BAD_EXP:
         enc_instances(e, "quick", finding="C19-F1")
 
+    # (probed again during the build: f64_to_bytes(x) == x.to_le_bytes() and bytes_to_f64 of it == x, per exponent e in
+    # {46, 48, 50, 52, 53, 60, 62} with all mantissa bits symbolic: no verdict in 1200 s at any of them - the assembly of the parts
+    # through Vec<bool>::insert stays outside the claim.)
+
     # ------------------------------------------------------------------ Variant and/or/not
     var = b.file("rusty_variant/src/variant.rs", "rusty_variant", "variant")
     b.add(var, "vk_c19_variant_and_or", """
